@@ -1099,6 +1099,8 @@ impl Model {
                 }
             }
             Op::CreateFragment { .. } => Plan::ok(),
+            // the entity and notation maps of a document type are read-only in DOM Level 1
+            Op::DtMap { .. } => Plan::fail(vec![ErrClass::NoModAllowed]),
             Op::SetData { node, data } => self.plan_data(ns(node), 0, Some(data), &step.op),
             Op::AppendData { node, data } => self.plan_data(ns(node), 0, Some(data), &step.op),
             Op::InsertData { node, off, data } => self.plan_data(ns(node), *off, Some(data), &step.op),
